@@ -494,10 +494,87 @@ func hangFeatures(ps *spec.Plan, t *oracle.Trace) string {
 	return f[0]
 }
 
+// cosmosify turns an engine case into one that runs on the cosmosdb vault (over the package's fake client): the engine
+// executes what it READS BACK from the vault, so what this vault loses or changes of a definition, a status or an attempt
+// shows in the same oracles. Shaped by the fake: it does not keep the order of the actions of a sequence or group
+// (one action each), and every patch rewrites all items of the plan (small plans, no injected vault delays).
+func cosmosify(ec *eng.Case) {
+	// rendezvous scripts refer to other actions by tag: leave those cases alone
+	rdv := false
+	scan := func(as []spec.Action) {
+		for _, a := range as {
+			for _, st := range a.Steps {
+				if st.WaitTag != "" {
+					rdv = true
+				}
+			}
+		}
+	}
+	for pi := range ec.Plans {
+		p := &ec.Plans[pi]
+		for _, c := range []*spec.Checks{p.Bypass, p.Pre, p.Cont, p.Post, p.Deferred} {
+			if c != nil {
+				scan(c.Actions)
+			}
+		}
+		for bi := range p.Blocks {
+			b := &p.Blocks[bi]
+			for _, c := range []*spec.Checks{b.Bypass, b.Pre, b.Cont, b.Post, b.Deferred} {
+				if c != nil {
+					scan(c.Actions)
+				}
+			}
+			for si := range b.Seqs {
+				scan(b.Seqs[si].Actions)
+			}
+		}
+	}
+	if rdv || ec.RacingStarts > 1 {
+		return
+	}
+	ec.Vault = "cosmos"
+	ec.VaultDelayUS = 0
+	if len(ec.Plans) > 2 {
+		ec.Plans = ec.Plans[:2]
+	}
+	one := func(c *spec.Checks) {
+		if c != nil && len(c.Actions) > 1 {
+			c.Actions = c.Actions[:1]
+		}
+	}
+	for pi := range ec.Plans {
+		p := &ec.Plans[pi]
+		if len(p.Blocks) > 2 {
+			p.Blocks = p.Blocks[:2]
+		}
+		for _, c := range []*spec.Checks{p.Bypass, p.Pre, p.Cont, p.Post, p.Deferred} {
+			one(c)
+		}
+		for bi := range p.Blocks {
+			b := &p.Blocks[bi]
+			if len(b.Seqs) > 4 {
+				b.Seqs = b.Seqs[:4]
+			}
+			for _, c := range []*spec.Checks{b.Bypass, b.Pre, b.Cont, b.Post, b.Deferred} {
+				one(c)
+			}
+			for si := range b.Seqs {
+				if len(b.Seqs[si].Actions) > 1 {
+					b.Seqs[si].Actions = b.Seqs[si].Actions[:1]
+				}
+			}
+		}
+		p.AssignTags()
+	}
+}
+
 func engineRun(prop string, profile engineProfile, orc engineOracle, hangIsViolation bool) func(c *Ctx, idx int) CaseResult {
 	return func(c *Ctx, idx int) CaseResult {
 		r := gen.Rand(c.Seed, prop, idx)
 		ec := profile(r, idx, c.Tier)
+		if idx%32 == 9 {
+			cosmosify(ec)
+		}
 		if ec.RacingStarts > 1 && c.Emit != nil {
 			// a double execution ends in a process panic when its second run finishes: journal the verdict on
 			// what was observed up to the first Wait return
